@@ -307,6 +307,7 @@ fn visit(which: Which, p: &Pos, b: &Board, mg: &MoveGenerator, st: &mut Stats, o
     for f in feats.iter() {
         st.bump(f);
     }
+    crate::report::note_case(&p.to_fen());
     st.bump(&format!("src_{}", origin));
     st.maxi("max_legal_moves_in_one_position", legal.len() as u64);
     let nontrivial = match which {
